@@ -204,7 +204,7 @@ func (pc *ProviderCache) GetResults(ctx context.Context, pid peer.ID, ctxID, met
 			}
 			// Use metadata from advertisement if one hasn't been specified for
 			// the extended provider
-			if xmd == nil {
+			if len(xmd) == 0 {
 				xmd = metadata
 			}
 			xpinfo := xpinfo
